@@ -11,7 +11,7 @@ with the error —
   (`unread window ++ rest of the input`) unchanged, and latch nothing but `e0`;
 * `peekN_spec`, `readByte_spec`, `skipString_spec`, `scanBytes_spec`, `skipWhiteSpace_spec`:
   each entry point computes what the whole-input functions of `Model/Scan.lean` compute on the
-  view, or reports `e0` (for `PeekN`/`SkipString` there is a third outcome: finding ROB-1);
+  view, or reports `e0` (`PeekN`/`SkipString` included since the fix of D33 = ROB-1);
 * `scanBytes_terminates`: the fuel `scanBytesFuel` always suffices — the measure is
   "bytes the reader has not delivered yet", and it exists only because of the D8 fix
   (`err != nil && s.pos >= s.used`).
@@ -253,8 +253,9 @@ theorem take_append_of_le {a b : Bytes} {n : Nat} (h : n ≤ a.length) : (a ++ b
   have : n - a.length = 0 := by omega
   simp [this]
 
-/-- outcome of `PeekN(n)`: the fault-free window, the reader's error, or (finding ROB-1) a
-    shortened window with a nil error in the very call whose `refill` latched the error -/
+/-- outcome of `PeekN(n)`: the fault-free window, or the reader's error (after the fix of D33 there
+    is no third case: a window that is short because a read error was latched is reported with
+    that error) -/
 structure PeekPost (d : Bytes) (e0 : Err) (n : Nat) (s : SB) (r : SB × Bytes × Option Err) : Prop where
   coh : Coh d e0 r.1
   view_eq : view d r.1 = view d s
@@ -262,10 +263,7 @@ structure PeekPost (d : Bytes) (e0 : Err) (n : Nat) (s : SB) (r : SB × Bytes ×
   panicked_eq : r.1.panicked = s.panicked
   window : r.2.1 <+: r.1.buf.drop r.1.pos
   latch : ∀ x, s.err = some x → r.1.err = some x
-  out : (r.2.2 = none ∧ r.2.1 = (view d s).take n) ∨
-        (r.2.2 = some e0 ∧ r.1.err = some e0) ∨
-        (r.2.2 = none ∧ s.err = none ∧ r.1.err = some e0 ∧ 0 < r.2.1.length ∧ r.2.1.length < n ∧
-          r.2.1 <+: view d s)
+  out : (r.2.2 = none ∧ r.2.1 = (view d s).take n) ∨ (r.2.2 = some e0 ∧ r.1.err = some e0)
 
 /-- `PeekN` over a faulty reader. -/
 theorem peekN_spec {d : Bytes} {e0 : Err} {src : Source} (h : FaultyOver d e0 src) (n : Nat)
@@ -290,8 +288,10 @@ theorem peekN_spec {d : Bytes} {e0 : Err} {src : Source} (h : FaultyOver d e0 sr
         subst hx
         have := R.latched x hs
         simp only [Prod.mk.injEq] at this
-        right; left
-        exact ⟨this.2, by rw [this.1]; exact hs⟩
+        right
+        obtain ⟨h1, h2⟩ := this
+        subst h2
+        exact ⟨rfl, by rw [h1]; exact hs⟩
       | none =>
         have hp0 := R.pos0 hs
         simp only [] at hp0
@@ -300,7 +300,8 @@ theorem peekN_spec {d : Bytes} {e0 : Err} {src : Source} (h : FaultyOver d e0 sr
           obtain ⟨hret, hfull⟩ := R.full hs hs1
           simp only [] at hret hfull
           left
-          refine ⟨hret, ?_⟩
+          subst hret
+          refine ⟨rfl, ?_⟩
           have hrest : d.drop s1.srcOff = [] := by
             rcases hfull with hf | hf
             · omega
@@ -314,16 +315,14 @@ theorem peekN_spec {d : Bytes} {e0 : Err} {src : Source} (h : FaultyOver d e0 sr
         | some x =>
           have hx := R.coh.errs x hs1
           subst hx
+          right
           rcases R.ret with hr | hr
-          · right; right
-            simp only [] at hr
-            have hadd := R.added hs hs1 hr
-            simp only [] at hadd
-            refine ⟨hr, rfl, rfl, by simp; omega, by simp; omega, ?_⟩
-            rw [← R.view_eq]
-            exact List.prefix_append _ _
-          · right; left
-            exact ⟨hr, rfl⟩
+          · simp only [] at hr
+            subst hr
+            exact ⟨rfl, rfl⟩
+          · simp only [] at hr
+            subst hr
+            exact ⟨rfl, rfl⟩
     · simp only [hB, if_false]
       have hB' : n ≤ (s1.buf.drop s1.pos).length := by simp; omega
       refine ⟨R.coh, R.view_eq, R.pos_eq, R.panicked_eq, List.take_prefix _ _, ?_, Or.inl ⟨rfl, ?_⟩⟩
@@ -370,7 +369,7 @@ theorem readByte_spec {d : Bytes} {e0 : Err} {src : Source} (h : FaultyOver d e0
     cases hx : s1.buf.drop s1.pos with
     | nil => have := congrArg List.length hx; simp at this; omega
     | cons a l => simp
-  rcases P.out with ⟨he, hb⟩ | ⟨he, hl⟩ | ⟨he, _, _, hpos, hlt, _⟩
+  rcases P.out with ⟨he, hb⟩ | ⟨he, hl⟩
   · simp only [] at he hb
     subst he
     simp only []
@@ -393,8 +392,6 @@ theorem readByte_spec {d : Bytes} {e0 : Err} {src : Source} (h : FaultyOver d e0
     have hne : ¬ (e0 = Err.eof) := h.e0_ne
     simp only [hne, if_false]
     exact ⟨P.coh, Or.inr ⟨by first | rfl | trivial | simp, hl⟩⟩
-  · simp only [] at hpos hlt
-    omega
 
 /-- `ScanBytes(accept)` on the whole input: final acceptor state, rest of the input (starting with
     the rejected byte), and whether the end of the input was reached -/
@@ -612,8 +609,7 @@ theorem skipWhiteSpace_spec {d : Bytes} {e0 : Err} {src : Source} (h : FaultyOve
     rw [← (scanSpec_wsAcc (view d s)).1, hb]
   · right; exact hb
 
-/-- `SkipString(pat)` over a faulty reader: the two fault-free answers, the reader's error, or
-    (finding ROB-1) a mismatch reported as a malformed file in the call whose `refill` latched the
+/-- `SkipString(pat)` over a faulty reader: one of the two fault-free answers, or the reader's
     error. -/
 theorem skipString_spec {d : Bytes} {e0 : Err} {src : Source} (h : FaultyOver d e0 src) (pat : Bytes)
     (hn : pat.length ≤ bufSize) (s : SB) (c : Coh d e0 s) :
@@ -622,8 +618,7 @@ theorem skipString_spec {d : Bytes} {e0 : Err} {src : Source} (h : FaultyOver d 
         view d (skipString src pat s).1 = (view d s).drop pat.length) ∨
      ((skipString src pat s).2 = some .malformed ∧ (view d s).take pat.length ≠ pat ∧
         view d (skipString src pat s).1 = view d s) ∨
-     ((skipString src pat s).2 = some e0 ∧ (skipString src pat s).1.err = some e0) ∨
-     ((skipString src pat s).2 = some .malformed ∧ s.err = none ∧ (skipString src pat s).1.err = some e0)) := by
+     ((skipString src pat s).2 = some e0 ∧ (skipString src pat s).1.err = some e0)) := by
   have P := peekN_spec h pat.length hn s c
   unfold skipString
   generalize peekN src pat.length s = r at P
@@ -631,7 +626,7 @@ theorem skipString_spec {d : Bytes} {e0 : Err} {src : Source} (h : FaultyOver d 
   have hw := P.window
   have hpl := P.coh.pos_le
   simp only [] at hw hpl
-  rcases P.out with ⟨he, hb⟩ | ⟨he, hl⟩ | ⟨he, hs0, hl, hpos, hlt, hpre⟩
+  rcases P.out with ⟨he, hb⟩ | ⟨he, hl⟩
   · simp only [] at he hb
     subst he
     simp only []
@@ -654,15 +649,7 @@ theorem skipString_spec {d : Bytes} {e0 : Err} {src : Source} (h : FaultyOver d 
       rw [← hb]; exact heq'
   · simp only [] at he hl
     subst he
-    exact ⟨P.coh, Or.inr (Or.inr (Or.inl ⟨by simp, hl⟩))⟩
-  · simp only [] at he hs0 hl hpos hlt hpre
-    subst he
-    simp only []
-    have heq : (buf == pat) = false := by
-      have : buf ≠ pat := by intro hc; rw [hc] at hlt; omega
-      simpa using this
-    simp only [heq, Bool.false_eq_true, if_false]
-    exact ⟨P.coh, Or.inr (Or.inr (Or.inr ⟨by simp, hs0, hl⟩))⟩
+    exact ⟨P.coh, Or.inr (Or.inr ⟨by simp, hl⟩)⟩
 
 /-! ## the readers of the correspondence run satisfy the hypotheses -/
 
@@ -781,9 +768,8 @@ theorem peekN_refines {d : Bytes} {src : Source} (g : GoodOver d src) (n : Nat) 
       have h2 := P2.coh.errs x he
       rw [h1] at h2; cases h2
   refine ⟨?_, P1.view_eq, P1.coh, hnone⟩
-  rcases P1.out with ⟨a, b⟩ | ⟨_, b⟩ | ⟨_, _, b, _⟩
+  rcases P1.out with ⟨a, b⟩ | ⟨_, b⟩
   · exact Prod.ext b a
-  · rw [hnone] at b; cases b
   · rw [hnone] at b; cases b
 
 /-- **`ReadByte` refines the whole-input view** on a fault-free reader. -/
